@@ -21,8 +21,122 @@ import (
 	"github.com/aergoio/aergo-lib/db"
 	"github.com/aergoio/aergo/v2/internal/common"
 	"github.com/aergoio/aergo/v2/pkg/trie"
+	"github.com/aergoio/aergo/v2/state/statedb"
+	"github.com/aergoio/aergo/v2/types"
 	"github.com/aergoio/aergo/v2/zz_verif/vh"
 )
+
+// accountProofs drives the node-level proof API (StateDB.GetAccountAndProof: what the RPC serves) at the
+// current root and at historical roots, plain and compressed, and verifies every proof against the root it
+// was asked for, the way a wallet does: the returned state must hash to the proved leaf value.
+func accountProofs(run *vh.Run) {
+	rng := run.Rng
+	store := db.NewDB(db.MemoryImpl, "")
+	sdb := statedb.NewStateDB(store, nil, false)
+	n := 4 + rng.Intn(12)
+	var ids [][]byte
+	for i := 0; i < n; i++ {
+		ids = append(ids, rng.Bytes(33))
+	}
+	type snap struct {
+		root []byte
+		m    map[string]*types.State
+	}
+	var snaps []snap
+	cur := map[string]*types.State{}
+	rounds := 2 + rng.Intn(3)
+	for r := 0; r < rounds; r++ {
+		for _, id := range ids {
+			if rng.Chance(1, 2) {
+				st := &types.State{Nonce: uint64(rng.Intn(1000)), Balance: rng.Bytes(1 + rng.Intn(8))}
+				if err := sdb.PutState(types.ToAccountID(id), st); err != nil {
+					panic(err)
+				}
+				cur[string(id)] = st
+			}
+		}
+		if err := sdb.Update(); err != nil {
+			panic(err)
+		}
+		if err := sdb.Commit(); err != nil {
+			panic(err)
+		}
+		m := map[string]*types.State{}
+		for k, v := range cur {
+			m[k] = v
+		}
+		snaps = append(snaps, snap{append([]byte{}, sdb.GetRoot()...), m})
+	}
+	for si, sn := range snaps {
+		for _, id := range ids {
+			for _, compressed := range []bool{false, true} {
+				for _, explicit := range []bool{true, false} {
+					if !explicit && si != len(snaps)-1 {
+						continue // a nil root means "the latest root"
+					}
+					var reqRoot []byte
+					if explicit {
+						reqRoot = sn.root
+					}
+					aid := types.ToAccountID(id)
+					pr, err := sdb.GetAccountAndProof(aid[:], reqRoot, compressed)
+					what := fmt.Sprintf("GetAccountAndProof(account #%d, root #%d explicit=%v, compressed=%v)", indexOf(ids, id), si, explicit, compressed)
+					run.Eval(what+hx(sn.root), true)
+					run.Count(fmt.Sprintf("account-proof compressed=%v historical=%v", compressed, si != len(snaps)-1))
+					fail := func(msg string) {
+						run.Fail(what+": "+msg, map[string]interface{}{"accounts": len(ids), "rounds": rounds, "root": hx(sn.root), "account": hx(id)})
+					}
+					if err != nil {
+						fail("error " + err.Error())
+						continue
+					}
+					want, present := sn.m[string(id)]
+					if pr.Inclusion != present {
+						fail(fmt.Sprintf("inclusion=%v but the account %s at that root", pr.Inclusion, map[bool]string{true: "exists", false: "does not exist"}[present]))
+						continue
+					}
+					vt := trie.NewTrie(sn.root, common.Hasher, nil)
+					if present {
+						if pr.State.GetNonce() != want.GetNonce() || !bytes.Equal(pr.State.GetBalance(), want.GetBalance()) {
+							fail("returned state is not the state stored at that root")
+							continue
+						}
+						buf, _ := statedb.Marshal(pr.State)
+						leaf := common.Hasher(buf)
+						var ok bool
+						if compressed {
+							ok = vt.VerifyInclusionC(pr.Bitmap, aid[:], leaf, pr.AuditPath, int(pr.Height))
+						} else {
+							ok = vt.VerifyInclusion(pr.AuditPath, aid[:], leaf)
+						}
+						if !ok {
+							fail("the proof does not verify against the requested root")
+						}
+					} else {
+						var ok bool
+						if compressed {
+							ok = vt.VerifyNonInclusionC(pr.AuditPath, int(pr.Height), pr.Bitmap, aid[:], pr.ProofVal, pr.ProofKey)
+						} else {
+							ok = vt.VerifyNonInclusion(pr.AuditPath, aid[:], pr.ProofVal, pr.ProofKey)
+						}
+						if !ok {
+							fail("the non-inclusion proof does not verify against the requested root")
+						}
+					}
+				}
+			}
+		}
+	}
+}
+
+func indexOf(l [][]byte, x []byte) int {
+	for i, y := range l {
+		if bytes.Equal(x, y) {
+			return i
+		}
+	}
+	return -1
+}
 
 type kv struct{ k, v []byte }
 
@@ -458,6 +572,10 @@ func main() {
 			s.proveAndVerify(k, ri)
 			s.forgeByDefaultLeafAmbiguity(k, ri)
 		}
+	}
+	// node-level proof API (accounts), current and historical roots
+	for n := 0; n < run.Pick(12, 200); n++ {
+		accountProofs(run)
 	}
 	// deliberate probe of the DefaultLeaf ambiguity: two keys sharing a 250-bit prefix give a chain of ~250 interior
 	// nodes with an empty sibling each; about one digest in 256 ends (or starts) with 00
